@@ -12,6 +12,19 @@ def run():
     chk = Check("C14")
     chk.add_model("StopAbsMC/handles", vlib.model_check("StopAbsMC", "StopAbsMC_handles.cfg", timeout=600))
     chk.add_model("StopAbsMC/callbacks", vlib.model_check("StopAbsMC", "StopAbsMC_cb.cfg", timeout=900))
+    # fine-grained model of stop_state: lock word (load / CAS / spin), callback list, is_removed hand-shake
+    chk.add_model("StopStateImpl (2 requesters, 2 callbacks, destructor on another thread, self-destroying callback)",
+                  vlib.model_check("StopStateImpl", "StopStateImpl.cfg", timeout=900))
+    chk.add_model("StopStateImpl (callback object kept alive)",
+                  vlib.model_check("StopStateImpl", "StopStateImpl_keep.cfg", timeout=900))
+    for cfg, what in (("StopStateImpl_no_recheck.cfg", "second winner"),
+                      ("StopStateImpl_no_recheck_cb.cfg", "callback registered after the stop never runs"),
+                      ("StopStateImpl_os_ids_equal.cfg", "destructor does not wait among OS threads")):
+        r = vlib.model_check("StopStateImpl", cfg, expect_ok=False, timeout=900)
+        chk.add_model("StopStateImpl/variant %s: %s (must violate)" % (cfg[14:-4], what), r, note="violated: %s" % r["violated"])
+    if chk.thorough():
+        chk.add_model("StopStateImpl (3 requesters, 3 callbacks)",
+                      vlib.model_check("StopStateImpl", "StopStateImpl_big.cfg", timeout=3000))
     for dev, cfg in (("AssignLeaksSourceCount", "StopAbsMC_dev_assign.cfg"),
                      ("SecondWinnerAfterUnlockedRetry", "StopAbsMC_dev_winner.cfg"),
                      ("DtorSkipsWaitAmongOsThreads", "StopAbsMC_dev_dtor.cfg")):
